@@ -1,5 +1,5 @@
 """Implementation-side driver for C08 (block-diagonal semantics).  Public API only:
-distributed_shampoo(...).init/update and tearfree.optimizer.tearfree(...).init/update, update under jax.jit.
+distributed_shampoo(...).init/update and tearfree.optimizer.tearfree(...).init/update, update op-by-op ("eager" cases) or under jax.jit.
 
 Per case three trees are optimised over the same gradient history:
   A   {"w": W}                          the blocked tensor alone
@@ -138,7 +138,10 @@ def run_case(case):
   for i, (cs, _) in enumerate(case["companions"]):
     pP["z%d" % i] = jnp.asarray(np.ones(cs, dtype))
   sA, sB, sP = tx.init(pA), tx.init(pB), tx.init(pP)
-  updA, updB, updP = jax.jit(tx.update), jax.jit(tx.update), jax.jit(tx.update)
+  if case.get("eager", True):
+    updA = updB = updP = tx.update          # op-by-op: identical primitive sequences per block
+  else:
+    updA, updB, updP = jax.jit(tx.update), jax.jit(tx.update), jax.jit(tx.update)
   steps = []
   for t in range(case["T"]):
     g = hist[t]
@@ -173,9 +176,12 @@ def run(payload):
   out = []
   for case in payload["cases"]:
     try:
+      import time
+      t0 = time.time()
       with contextlib.redirect_stdout(io.StringIO()):
         r = run_case(case)
       r["case"] = case
+      r["elapsed"] = round(time.time() - t0, 2)
       out.append(r)
     except Exception as e:  # pylint: disable=broad-except
       out.append(dict(case=case, exc="%s: %s" % (type(e).__name__, str(e)[:300]),
